@@ -80,6 +80,7 @@ type fCloud struct {
 	busy    map[int]int // addresses named by an unassign call in flight (never re-issued meanwhile)
 	jitter  func() time.Duration
 	faults  int
+	loadDelay time.Duration // LoadNetworkInterface (instance metadata) is slow
 	armed   func() // run once (in its own goroutine) right after the next successful create / assign call ended
 }
 
@@ -337,6 +338,12 @@ func (c *fCloud) DeleteNetworkInterface(id string) error {
 func (c *fCloud) LoadNetworkInterface(mac string) ([]netip.Addr, []netip.Addr, error) {
 	e := macNum(mac)
 	c.mu.Lock()
+	dl := c.loadDelay
+	c.mu.Unlock()
+	if dl > 0 {
+		time.Sleep(dl)
+	}
+	c.mu.Lock()
 	defer c.mu.Unlock()
 	fe := c.enis[e]
 	if fe == nil {
@@ -473,6 +480,7 @@ type poolCfg struct {
 	pre                                 int  // interfaces attached before the daemon starts
 	trunk                               bool // the first pre-attached interface is the trunk
 	special                             string // "", "trunk" or "erdma": type of the first pre-attached interface
+	restarted                           bool   // this system is the daemon started again on the same cloud (no reset line, balancer on)
 	noPre6                              bool   // pre-attached interfaces carry no IPv6 address (IPv6 enabled on a node with IPv4-only interfaces)
 	policy                              string
 }
@@ -515,8 +523,12 @@ func newPoolSys(t *testing.T, w *vt.Writer, cfg poolCfg, scen int, podRes []daem
 	s.cloud = cloud
 	cloud.w = w
 	cloud.mu.Lock()
-	w.Emit(vt.M{"ev": "reset", "scen": scen, "conf": vt.M{"cap": cfg.cap, "maxEni": cfg.slots, "v4": cfg.v4, "v6": cfg.v6,
+	if cfg.restarted {
+		w.Emit(vt.M{"ev": "restart"})
+	} else {
+		w.Emit(vt.M{"ev": "reset", "scen": scen, "conf": vt.M{"cap": cfg.cap, "maxEni": cfg.slots, "v4": cfg.v4, "v6": cfg.v6,
 		"minIdle": cfg.minIdle, "maxIdle": cfg.maxIdle, "total": cfg.slots * cfg.cap, "batch": cfg.batch}, "cloud": cloud.snapshot()})
+	}
 	cloud.mu.Unlock()
 	pc := &daemon.PoolConfig{BatchSize: cfg.batch, MaxIPPerENI: cfg.cap, EnableIPv4: cfg.v4, EnableIPv6: cfg.v6}
 	var nis []NetworkInterface
@@ -544,6 +556,9 @@ func newPoolSys(t *testing.T, w *vt.Writer, cfg poolCfg, scen int, podRes []daem
 		}
 	}
 	s.mgr = NewManager(cfg.minIdle, cfg.maxIdle, cfg.slots*cfg.cap, 0, nis, daemon.EniSelectionPolicy(cfg.policy), nil)
+	if cfg.restarted {
+		s.mgr.syncPeriod = 2 * time.Minute // the daemon's periodic balancer: Manager.Run starts it, its first tick comes at once
+	}
 	s.ctx, s.stop = context.WithCancel(context.Background())
 	if err := s.mgr.Run(s.ctx, &s.wg, podRes); err != nil {
 		t.Fatalf("manager run: %v", err)
@@ -850,6 +865,51 @@ func (d *driver) step(st vt.M) {
 			d.w.Emit(vt.M{"ev": "syncpool_ret"})
 			close(done)
 		}()
+	case "restart":
+		// the daemon process stops and starts again on the same node: the interfaces are loaded from the (slow) metadata
+		// service, the pods' addresses restored from the stored records, the periodic balancer starts as Manager.Run does
+		d.settle(3 * time.Second)
+		for r, cancel := range d.open {
+			d.w.Emit(vt.M{"ev": "cancel", "r": r})
+			cancel()
+		}
+		for len(d.open) > 0 {
+			if !d.collect(true, 10*time.Second) {
+				d.s.t.Fatalf("open requests did not return before the restart")
+			}
+		}
+		if d.syncBusy {
+			select {
+			case <-d.syncDone:
+			case <-time.After(15 * time.Second):
+				d.s.t.Fatalf("syncPool did not return before the restart")
+			}
+			d.syncBusy = false
+		}
+		c := d.s.cloud
+		c.mu.Lock()
+		if c.armed != nil {
+			c.armed = nil
+			d.bg.Done()
+		}
+		c.loadDelay = time.Duration(vt.Int(st["loadMs"])) * time.Millisecond
+		c.mu.Unlock()
+		d.bg.Wait()
+		d.s.shutdown()
+		var recs []daemon.PodResources
+		for p, h := range d.holds {
+			it := daemon.ResourceItem{Type: daemon.ResourceTypeENIIP, ENIID: eniID(h.e), ENIMAC: eniMAC(h.e)}
+			if h.a4 != 0 {
+				it.IPv4 = v4(h.a4).String()
+			}
+			if h.a6 != 0 {
+				it.IPv6 = v6(h.a6).String()
+			}
+			recs = append(recs, daemon.PodResources{PodInfo: &daemon.PodInfo{Namespace: "ns", Name: fmt.Sprintf("pod-%d", p)}, Resources: []daemon.ResourceItem{it}})
+		}
+		cfg := d.s.cfg
+		cfg.restarted = true
+		d.s = newPoolSys(d.s.t, d.w, cfg, 0, recs, c)
 	case "slowwaiter":
 		// from now on a queued request's worker is held up that long whenever it is about to take the pool lock
 		atomic.StoreInt64(&d.s.slow, int64(vt.Int(st["us"])))
@@ -1173,6 +1233,19 @@ func TestVerifPool(t *testing.T) {
 			scens = append(scens, sc)
 			continue
 		}
+		if k%8 == 6 {
+			// restart on a node whose interface is full of addresses pods hold, with a minimum idle reserve and a slow
+			// metadata service: the balancer must not run before the interfaces are loaded
+			sc = sc[:1]
+			c := vt.Map(sc[0]["conf"])
+			c["cap"], c["slots"], c["batch"], c["pre"], c["minIdle"], c["maxIdle"], c["special"], c["trunk"] = 3, 2, 2, 0, 2, 3, "", false
+			c["v6"] = (k/8)%2 == 1
+			sc = append(sc, vt.M{"a": "uninhibit"}, vt.M{"a": "settle"}, vt.M{"a": "alloc", "p": 1}, vt.M{"a": "settle"}, vt.M{"a": "alloc", "p": 2}, vt.M{"a": "alloc", "p": 3},
+				vt.M{"a": "wait", "ms": 800}, vt.M{"a": "settle"}, vt.M{"a": "restart", "loadMs": 300}, vt.M{"a": "wait", "ms": 1500}, vt.M{"a": "settle"},
+				vt.M{"a": "alloc", "p": 4}, vt.M{"a": "settle"}, vt.M{"a": "release", "p": 1}, vt.M{"a": "restart", "loadMs": 100}, vt.M{"a": "wait", "ms": 1200}, vt.M{"a": "settle"})
+			scens = append(scens, sc)
+			continue
+		}
 		if k%8 == 5 {
 			// dual stack: shrinking leaves an interface with idle IPv4 but no idle IPv6 and no pod; the next request lands there
 			// (the other interface is full) and waits for an IPv6 address only; a pod leaves elsewhere and the balancer runs
@@ -1325,7 +1398,7 @@ func TestVerifPool(t *testing.T) {
 			time.Sleep(time.Duration(jr.Intn(4)) * 5 * time.Millisecond)
 		}
 		d.drain()
-		sys.shutdown()
+		d.s.shutdown()
 	}
 }
 
